@@ -92,6 +92,10 @@ ValueClauses(name, ln, holds) ==
   THEN << <<"NOTE:SparseRejected", FALSE>> >>
   ELSE << <<"Returns", ln.exc = "">>, <<name, ln.exc # "" \/ (ln.grid /\ holds)>> >>
 
+\* no exact reference on this input: the call must return (sparse inputs may be rejected)
+ReturnsOnly(ln) ==
+  IF ln.exc # "" /\ Sparse(ln) THEN << <<"NOTE:SparseRejected", FALSE>> >> ELSE << <<"Returns", ln.exc = "">> >>
+
 ObsClauses(ln) ==
   LET R == reg[ln.reg] IN
   IF ~ObsWellFormed(R, ln) THEN << <<"MalformedRecord", FALSE>> >>
@@ -161,6 +165,18 @@ EcmClauses(ln) ==
         /\ Len(ln.v) = nb
         /\ \A I \in 1..nb : Len(ln.v[I]) = nb /\ \A J \in 1..nb : ln.v[I][J] = EcmRef(R, ln.blk, I, J))
 
+\* one-way classical information J of a two-qubit register for a POVM on the second qubit (definition:
+\* p_k = Tr[(1 x M_k) rho], rho_A|k = Tr_B[(1 x M_k) rho]/p_k, J = S(A) - SUM p_k S(rho_A|k)):
+\*   no correlations (I(A:B) = 0)          -> J = 0 for every POVM;
+\*   Bell-like pair and rank-one elements  -> every conditional state is pure, J = S(A) = 1;
+\*   otherwise the value depends on the POVM (judged on the "rel" lines against numpy), it must return.
+OwciClauses(ln) ==
+  LET R == reg[ln.reg] IN
+  IF R.n # 2 THEN << <<"MalformedRecord", FALSE>> >>
+  ELSE IF MutInf(R.G, {1}, {2}) = 0 THEN ValueClauses("OneWayInfoValue", ln, ln.v = 0)
+  ELSE IF LogNeg(R.G, {1}, {2}) = 1 /\ ln.rank1 THEN ValueClauses("OneWayInfoValue", ln, ln.v = 1)
+  ELSE ReturnsOnly(ln)
+
 \* ---------------------------------------------------------------- two registers
 Pow4(n) == 4^n
 
@@ -214,7 +230,7 @@ ShiftWellFormed(ln) ==
 ShiftClauses(ln) ==
   IF ~ShiftWellFormed(ln) THEN << <<"MalformedRecord", FALSE>> >>
   ELSE LET ref == ShiftRef(ln) IN
-       IF ref < 0 THEN ValueClauses(ObsClauseName(ln.m), ln, TRUE)
+       IF ref < 0 THEN ReturnsOnly(ln)
        ELSE ValueClauses(ObsClauseName(ln.m), ln, ln.v = ref)
 
 \* ---------------------------------------------------------------- relations on generic (random) states
@@ -256,6 +272,7 @@ Clauses(ln) ==
     [] ln.ev = "counts" -> CountsClauses(ln)
     [] ln.ev = "corr"   -> CorrClauses(ln)
     [] ln.ev = "ecm"    -> EcmClauses(ln)
+    [] ln.ev = "owci"   -> OwciClauses(ln)
     [] ln.ev = "pair"   -> PairClauses(ln)
     [] ln.ev = "shift"  -> ShiftClauses(ln)
     [] ln.ev = "rel"    -> RelClauses(ln)
